@@ -25,7 +25,10 @@ AsSet(s) == {s[i] : i \in DOMAIN s}
 \* beside_*: the file's directory also holds a NON-directory entry called .git (the gitdir file of a worktree or
 \* submodule) or target (a plain file, a symbolic link): only directories of those names are excluded
 AcceptedPathClasses == {"root", "depth1", "depth3", "sibling_targets", "file_named_target",
-                        "git_lookalike", "dotdir", "beside_git_file", "beside_target_file", "beside_target_link"}
+                        "git_lookalike", "dotdir", "beside_git_file", "beside_target_file", "beside_target_link",
+                        \* module files whose NAME is special to cargo somewhere else (build.rs is a build script only
+                        \* next to Cargo.toml, mod.rs / lib.rs / main.rs are ordinary modules of the scanned tree)
+                        "module_named_build", "module_named_mod", "module_named_main"}
 RejectedPathClasses == {"under_target", "under_target_deep", "under_git", "non_rs", "rs_uppercase_ext"}
 
 FileAccepted(f) == f.pc \in AcceptedPathClasses /\ f.parsable
